@@ -3,6 +3,7 @@ import Grexv.Props.C08
 import Grexv.Props.C01
 import Grexv.Props.C03
 import Grexv.Lemmas.FoldClass
+import Grexv.Lemmas.FoldOrbit
 
 /-!
 # C04 — the case-insensitive option
@@ -166,6 +167,124 @@ theorem ci_sound (cap : Bool) (env : Env) (ws : List Str) (st : Stages)
   obtain ⟨P, hP, hm⟩ := ci_default_exact cap env ws st h hseg ⟨w, hw, hne⟩ w hsc
   exact ⟨P, hP, hm.mpr ⟨lowerOne env w, List.mem_map.mpr ⟨w, hw, rfl⟩, stored_ne_nil env w hne,
     stored_matches_original env w⟩⟩
+
+/-! ## over the original test cases: simple case folding is an equivalence -/
+
+/-- "equal up to simple case folding" is symmetric (`chrMatches_symm`: the rows of the regex crate's fold table describe orbits,
+checked by the kernel over the whole table) -/
+theorem foldEq_symm : ∀ (t s : Str), FoldEq t s → FoldEq s t
+  | [], s, h => by
+    have : s = [] := h
+    subst this; exact foldEq_refl []
+  | c :: r, s, h => by
+    obtain ⟨x, r', rfl, hx, hr⟩ := h
+    exact ⟨c, r, rfl, chrMatches_symm c x hx, foldEq_symm r r' hr⟩
+
+/-- … and transitive -/
+theorem foldEq_trans : ∀ (a b c : Str), FoldEq a b → FoldEq b c → FoldEq a c
+  | [], b, c, h1, h2 => by
+    have : b = [] := h1
+    subst this; exact h2
+  | x :: r, b, c, h1, h2 => by
+    obtain ⟨y, rb, rfl, hxy, hr1⟩ := h1
+    obtain ⟨z, rc, rfl, hyz, hr2⟩ := h2
+    exact ⟨z, rc, rfl, chrMatches_trans x y z hxy hyz, foldEq_trans r rb rc hr1 hr2⟩
+
+/-- a string equals the stored form of a test case up to case folding iff it equals the original test case up to case folding -/
+theorem foldEq_stored_iff (env : Env) (w s : Str) : FoldEq (lowerOne env w) s ↔ FoldEq w s := by
+  have h0 := stored_matches_original env w
+  constructor
+  · intro h; exact foldEq_trans _ _ _ (foldEq_symm _ _ h0) h
+  · intro h; exact foldEq_trans _ _ _ h0 h
+
+theorem lowerOne_nil (env : Env) : lowerOne env [] = [] := by
+  unfold lowerOne
+  simp only []
+  split
+  · rename_i hc
+    simp only [Bool.and_eq_true, decide_eq_true_eq] at hc
+    exact List.eq_nil_of_length_eq_zero (by simpa using hc.1)
+  · rfl
+
+/-- **C04 for the model, all inputs, over the original test cases** with only the case-insensitive option: the returned text carries the
+`i` flag, is accepted by the model of `Regex::new`, and the compiled pattern matches a string of scalar values in full **iff the string
+equals some non-empty original test case — in whatever letter case it was given — position by position up to the regex crate's simple
+case folding**.  Nothing is assumed about `str::to_lowercase`: the code keeps a test case as given unless the lower-cased form still
+matches it under `(?i)`, and simple case folding is an equivalence (`foldEq_symm`, `foldEq_trans`) -/
+theorem ci_default_exact_originals (cap : Bool) (env : Env) (ws : List Str) (st : Stages)
+    (h : regExpFrom (cfgCI cap) env ws = .ok st) (hseg : ∀ w ∈ lowerCases env ws, SegOK env w)
+    (hne : ∃ t ∈ ws, t ≠ []) (s : Str) (hs : ∀ c ∈ s, Scalar c) :
+    ∃ P, Spec.parse (fmtRegExp (cfgCI cap) st.finalAst) = some (⟨true, false⟩, P) ∧
+      (Spec.fullMatch true P s = true ↔ ∃ w ∈ ws, w ≠ [] ∧ FoldEq w s) := by
+  obtain ⟨P, hP, hm⟩ := ci_default_exact cap env ws st h hseg hne s hs
+  refine ⟨P, hP, ?_⟩
+  rw [hm]
+  constructor
+  · rintro ⟨t, ht, htne, hts⟩
+    obtain ⟨w, hw, rfl⟩ := List.mem_map.mp ht
+    refine ⟨w, hw, ?_, (foldEq_stored_iff env w s).mp hts⟩
+    intro e; subst e; exact htne (lowerOne_nil env)
+  · rintro ⟨w, hw, hwne, hws⟩
+    exact ⟨lowerOne env w, List.mem_map.mpr ⟨w, hw, rfl⟩, stored_ne_nil env w hwne, (foldEq_stored_iff env w s).mpr hws⟩
+
+/-- what a code point is converted to does not depend on which member of its fold orbit it is: the class tests agree on the orbit
+(`perlMember_fold`) and unconverted members of one orbit match the same code points -/
+theorem docAtom_orbit (cfg : Config) (l o : Nat) (h : Spec.chrMatches true l o = true) (x : Nat) :
+    atomDen true (Props.C03.docAtom cfg l) x ↔ atomDen true (Props.C03.docAtom cfg o) x := by
+  have hk : ∀ k, Spec.perlMember k l = Spec.perlMember k o := by
+    intro k
+    rw [chrMatches_orbit_iff] at h
+    rcases h with h | h
+    · rw [h]
+    · exact perlMember_fold k o l h
+  have hchr : Spec.chrMatches true l x = true ↔ Spec.chrMatches true o x = true := by
+    constructor
+    · intro hx; exact chrMatches_trans o l x (chrMatches_symm l o h) hx
+    · intro hx; exact chrMatches_trans l o x h hx
+  unfold Props.C03.docAtom
+  simp only [hk]
+  repeat' split
+  all_goals first
+    | exact Iff.rfl
+    | exact hchr
+
+theorem atomsDen_docAtom_orbit (cfg : Config) : ∀ (t w s : Str), FoldEq t w →
+    (atomsDen true (t.map (Props.C03.docAtom cfg)) s ↔ atomsDen true (w.map (Props.C03.docAtom cfg)) s)
+  | [], w, s, h => by
+    have : w = [] := h
+    subst this; exact Iff.rfl
+  | c :: r, w, s, h => by
+    obtain ⟨o, rw', rfl, hco, hr⟩ := h
+    simp only [List.map_cons, atomsDen]
+    constructor
+    · rintro ⟨x, rs, rfl, hx, hrs⟩
+      exact ⟨x, rs, rfl, (docAtom_orbit cfg c o hco x).mp hx, (atomsDen_docAtom_orbit cfg r rw' rs hr).mp hrs⟩
+    · rintro ⟨x, rs, rfl, hx, hrs⟩
+      exact ⟨x, rs, rfl, (docAtom_orbit cfg c o hco x).mpr hx, (atomsDen_docAtom_orbit cfg r rw' rs hr).mpr hrs⟩
+
+/-- **C04 with class options, over the original test cases**: with `-i` and every subset of the class options (capturing groups, `-e`,
+one anchor disabled free) the compiled pattern matches a string of scalar values in full iff the string is obtained from a non-empty
+*original* test case by replacing every code point by a member of its simple-case-folding orbit (unconverted code points) or of its
+shorthand class (converted ones) -/
+theorem ci_exact_originals (cfg : Config) (hp : PlainPrintCI cfg) (hci : cfg.ci = true) (env : Env) (ws : List Str) (st : Stages)
+    (h : regExpFrom cfg env ws = .ok st) (hseg : ∀ w ∈ lowerCases env ws, SegOK env w)
+    (hne : ∃ t ∈ ws, t ≠ []) (s : Str) (hs : ∀ c ∈ s, Scalar c) :
+    ∃ P, Spec.parse (fmtRegExp cfg st.finalAst) = some (⟨true, false⟩, P) ∧
+      (Spec.fullMatch true P s = true ↔ ∃ w ∈ ws, w ≠ [] ∧ atomsDen true (w.map (Props.C03.docAtom cfg)) s) := by
+  obtain ⟨P, hP, hm⟩ := ci_exact cfg hp hci env ws st h hseg hne s hs
+  refine ⟨P, hP, ?_⟩
+  rw [hm]
+  constructor
+  · rintro ⟨t, ht, htne, hts⟩
+    obtain ⟨w, hw, rfl⟩ := List.mem_map.mp ht
+    refine ⟨w, hw, ?_, (atomsDen_docAtom_orbit cfg _ w s (stored_matches_original env w)).mp hts⟩
+    intro e; subst e; exact htne (lowerOne_nil env)
+  · rintro ⟨w, hw, hwne, hws⟩
+    exact ⟨lowerOne env w, List.mem_map.mpr ⟨w, hw, rfl⟩, stored_ne_nil env w hwne,
+      (atomsDen_docAtom_orbit cfg _ w s (stored_matches_original env w)).mpr hws⟩
+
+/-- non-vacuity of the equivalence: the Kelvin sign, `k` and `K` are one orbit -/
+example : Spec.chrMatches true 8490 107 = true ∧ Spec.chrMatches true 107 75 = true ∧ Spec.chrMatches true 8490 75 = true := by decide +kernel
 
 /-- what a code point is converted to also stands for every member of its fold orbit: simple case folding preserves
 `\d`, `\s`, `\w` (`perlMember_fold`, a kernel-checked fact about the regex crate's tables) -/
